@@ -272,6 +272,60 @@ def r_whittaker(ctx: Ctx, model):
         ctx.ob(nkept >= 1, Finding("C19.E-whittaker", fi.where, f"whittaker|{mname}|never-kept", "no path keeps the loading"), nontrivial_key=("kept", mname))
 
 
+def r_whittaker_point(ctx: Ctx, model):
+    """a point isotherm handed to the Whittaker analysis is first copied, the COPY converted to absolute pressure in Pa, and a model
+    fitted to the copy; the caller's object is never converted (route interpreted with recording stubs)"""
+    ctx.rule("E-whittaker (point isotherms): copy -> convert_pressure(mode_to='absolute', unit_to='Pa') on the copy -> model_iso(copy, "
+             "model=<requested>) -> closed form; the input object is not converted")
+    fi = model.func(f"{CH}.enth_sorp_whittaker.enthalpy_sorption_whittaker")
+    pi = model.cls("pygaps.core.pointisotherm.PointIsotherm")
+    mi = model.cls("pygaps.core.modelisotherm.ModelIsotherm")
+    for mname in ("Langmuir", "Toth"):
+        I = mk(model)
+        log = []
+        ads = Obj(kind="AdsW", label="ads")
+        for nm_, val in (("p_critical", S("p_c")), ("p_triple", S("p_t")), ("t_critical", S("T_c")), ("saturation_pressure", S("p_sat"))):
+            I.libmeth[("AdsW", nm_)] = (lambda val: lambda I, v, a, k, n_: val)(val)
+        I.libmeth[("AdsW", "enthalpy_vaporisation")] = lambda I, v, a, k, n_: sp.Function("hvap")(k.get("press", a[0] if a else None))
+        I.libmeth[("AdsW", "__str__")] = lambda I, v, a, k, n_: "ads"
+        params = {"n_m": S("n_m"), "K": S("K")} if mname == "Langmuir" else {"n_m": S("n_m"), "K": S("K"), "t": S("t")}
+        modelobj = Obj(kind="ModelW", label="model", attrs={"name": mname, "params": dict(params), "loading_range": [S("l0"), S("l1")]})
+        fitted = lambda: Obj(cls=mi, label="fitted", attrs={"model": modelobj, "_adsorbate": ads, "_temperature": S("T"), "temperature_unit": "K",
+                                                             "pressure_mode": "absolute", "pressure_unit": "Pa", "loading_basis": "molar", "loading_unit": "mmol",
+                                                             "material_basis": "mass", "material_unit": "g", "properties": {}, "branch": "ads", "_material": Obj(kind="Mat")})
+        frame = Obj(kind="FrameW", label="data_raw")
+        I.libmeth[("FrameW", "copy")] = lambda I, v, a, k, n_: Obj(kind="FrameW", label="data_raw.copy")
+        inp = lambda: Obj(cls=pi, label="input", attrs={"data_raw": frame, "pressure_key": "pressure", "loading_key": "loading", "pressure_mode": "relative",
+                                                        "pressure_unit": None, "_adsorbate": ads, "_temperature": S("T"), "temperature_unit": "K"})
+
+        def from_iso(I, fi_, env, n_):
+            log.append(("from_isotherm", getattr(env.get("isotherm"), "label", None), getattr(env.get("isotherm_data"), "label", None)))
+            return Obj(cls=pi, label="copy", attrs={"pressure_mode": "relative", "pressure_unit": None})
+        I.overrides["pygaps.core.pointisotherm.PointIsotherm.from_isotherm"] = from_iso
+        I.overrides["pygaps.core.pointisotherm.PointIsotherm.convert_pressure"] = \
+            lambda I, fi_, env, n_: log.append(("convert_pressure", getattr(env.get("self"), "label", None), {k_: v for k_, v in env.items() if k_ in ("mode_to", "unit_to")}))
+        I.overrides["pygaps.modelling.model_iso"] = \
+            lambda I, fi_, env, n_: (log.append(("model_iso", getattr(env.get("isotherm"), "label", None), env.get("model"), env.get("branch"))), fitted())[1]
+        I.overrides["pygaps.core.modelisotherm.ModelIsotherm.pressure_at"] = \
+            lambda I, fi_, env, n_: Vec([S(f"p_model{j}") for j in range(len(env["loading"].items))]) if isinstance(env.get("loading"), Vec) else S("p_model")
+        I.ext["numpy.isnan"] = lambda I, a, k, n_: Vec([False] * len(a[0].items)) if isinstance(a[0], Vec) else False
+        I.ext["builtins.max"] = lambda I, a, k, n_: sp.Max(*a)
+        I.ext["builtins.min"] = lambda I, a, k, n_: sp.Min(*a)
+        outs = I.explore(lambda I: (log.clear(), I.call_func(fi, [inp()], {"model": mname, "loading": [S("nq")]}, None), list(log))[1:])
+        oks = [o for o in outs if o.kind == "ok"]
+        lg = oks[0].value[1] if oks else []
+        conv = [e for e in lg if e[0] == "convert_pressure"]
+        ok = bool(oks) and [e[:2] for e in lg if e[0] == "from_isotherm"] == [("from_isotherm", "input")] \
+            and conv == [("convert_pressure", "copy", {"mode_to": "absolute", "unit_to": "Pa"})] \
+            and [e for e in lg if e[0] == "model_iso"] == [("model_iso", "copy", mname, "ads")] \
+            and any(e[0] == "from_isotherm" and e[2] == "data_raw.copy" for e in lg)
+        ctx.ob(ok, Finding("C19.E-whittaker", fi.where, f"whittaker|point-route|{mname}",
+                           f"enthalpy_sorption_whittaker(<PointIsotherm in relative pressure>, model={mname!r}): "
+                           f"{lg if oks else [repr(o)[:90] for o in outs[:2]]}; required from_isotherm(input, isotherm_data=data_raw.copy()) -> "
+                           "convert_pressure(mode_to='absolute', unit_to='Pa') on the copy -> model_iso(copy, model, branch='ads')"),
+               nontrivial_key=("whittaker", "point-route", mname))
+
+
 def r_point(ctx: Ctx, model):
     ctx.rule("E-point: initial_enthalpy_point == other_data(key, branch=branch)[0]")
     I = mk(model)
@@ -304,6 +358,7 @@ def run(ctx: Ctx):
     ctx.assume("linregress on affine data returns the generating slope; CoolProp h_vap is a function of pressure only")
     r_isosteric(ctx, model)
     r_whittaker(ctx, model)
+    r_whittaker_point(ctx, model)
     r_point(ctx, model)
     from ..sites import conversions_drop_caches, no_memoisation
     conversions_drop_caches(ctx, load(ctx.root), "C19", "E-fresh")   # isosteric / Whittaker read pressure_at of converted isotherms
